@@ -995,7 +995,13 @@ func callBuiltin(caller *frame, callpos token.Pos, fn *ssa.Builtin, args []value
 		case *omap:
 			m.clear()
 		case []value:
-			panic(unmodelled{"clear on slice"})
+			if sl, ok := fn.Type().(*types.Signature).Params().At(0).Type().Underlying().(*types.Slice); ok {
+				for k := range m {
+					m[k] = zero(sl.Elem())
+				}
+			} else {
+				panic(unmodelled{"clear on slice of unknown element type"})
+			}
 		}
 		return nil
 
